@@ -69,7 +69,7 @@ CLAIMED = {
             "execute_any_distributed over 1-8 participants (self at any index, more nodes than splits) for statements of all merge shapes must equal ctx.sql on the initiator; a refusal is allowed.",
             "The transport is in-process (the HTTP wire is C16/C35); peers read a byte-identical copy of the files."),
     "C10": ("fault_enumeration", "fault-injecting FragmentTransport: every fault kind at every remote shard, every truncation offset of small real payloads, message-boundary cuts, byte flips, wrong-copy peers, pairs of faults",
-            "For scatter and gather shapes: transport error, HTTP error, empty body, truncation at every offset (all offsets for payloads <= 600 bytes, IPC message boundaries + sampled offsets beyond), flipped bytes, digest-mismatch peers, alone and in pairs: the query must fail, or return exactly the fault-free answer when the fault did not reach the payload.",
+            "For scatter and gather shapes: transport error, HTTP error, empty body, truncation at every offset (all offsets for payloads <= 240 bytes in quick / <= 4096 in thorough, IPC message boundaries + sampled offsets + the last 64 bytes beyond), flipped bytes, digest-mismatch peers, alone and in pairs: the query must fail, or return exactly the fault-free answer when the fault did not reach the payload.",
             "Faults are injected at the FragmentTransport boundary (what HttpTransport returns); socket-level truncation is C16."),
     "C13": ("exploration", "reassembly monitor: union of all shard scans vs the table, per node count and split size",
             "For generated Parquet tables x node counts 1-9 x projections/filters/limits: every row appears in exactly one shard scan, shard scans concatenated equal the table scan (multiset), pruning inside a shard never drops a kept row.",
@@ -149,7 +149,7 @@ LATE = {
             "Result sets with hostile strings (separators, quotes, CR/LF, control, non-ASCII), NULLs, numbers, hostile column names in CSV and JSON mode must parse back to every cell.",
             "Formatter compiled from /repo/src/cli/output.rs into the harness."),
 }
-ENABLED_LATE = []
+ENABLED_LATE = ["C17", "C19", "C20", "C29", "C30", "C32", "C34", "C35", "C36", "C40"]
 for _k in ENABLED_LATE:
     CLAIMED[_k] = LATE[_k]
 
